@@ -202,6 +202,21 @@ def check_baseline(pid, per_tag, unit_results=None):
     return missing
 
 
+def calls_fn(text, out_name, repo_name):
+    """does `text` call the function emitted as `out_name` (repository path `repo_name`)?  A method call `.f(`, a bare
+    call `f(`, or a path call `T::f(` whose qualifier is `Self` or the type the function belongs to (so that
+    `incremental::run(` is not taken for `AggregateTargetActor::run`)"""
+    o = re.escape(out_name)
+    if re.search(r"\.\s*" + o + r"\s*\(", text) or re.search(r"(?<![A-Za-z0-9_:.])" + o + r"\s*\(", text):
+        return True
+    ty = repo_name.split("#")[0].split("::")
+    quals = {"Self"} | ({ty[-2]} if len(ty) >= 2 else set())
+    for m in re.finditer(r"([A-Za-z0-9_]+)\s*::\s*" + o + r"\s*\(", text):
+        if m.group(1) in quals:
+            return True
+    return False
+
+
 def depends_on_degraded(pid, unit_results):
     """a function whose obligations decide `pid` and that (transitively, inside its unit) calls a degraded function -
     or hosts a degraded outlined closure - was verified against a contract nobody checked in this run: undecided"""
@@ -232,7 +247,7 @@ def depends_on_degraded(pid, unit_results):
                         hit = a
                         break
                     for o in out_names.get(a, ()):
-                        if re.search(r"(?<![A-Za-z0-9_])" + re.escape(o) + r"\s*\(", text[name]):
+                        if calls_fn(text[name], o, a):
                             hit = a
                             break
                     if hit:
